@@ -70,6 +70,10 @@ FIXED = [
      "dense offline IA-STL: 'sample == True' on a [t, bool] pair: insensitive predicates were always -inf"),
     ('F11b', ['C06'], 'fix: dense-time online IA-STL dropped truth-value changes',
      'dense online IA-STL: sat() compared a robustness with the previous Boolean; the sample where a predicate becomes true at robustness 0 was dropped'),
+    ('F12', ['C17'], 'fix: s_prev and s_next were silently ignored by the dense-time monitors',
+     "dense time: 's_prev a' / 's_next a' evaluated as 'a' offline and raised KeyError online instead of RTAMTException"),
+    ('F12b', ['C17'], 'fix: pastify() of a dense-time specification silently removed next',
+     "dense online with pastify(): 'next a' / 's_next a' were removed by the pastifier and monitored as 'a' instead of being rejected"),
 ]
 
 OPEN = [
